@@ -171,6 +171,8 @@ func finish(eng *Engine, ev *Evidence, prop, tier string, seed int, results []*H
 
 	newViol := 0
 	knownSeen := map[string]bool{}
+	reported := map[string]bool{}
+	mismatch := map[string][]string{}
 	for _, p := range pend {
 		switch p.kind {
 		case "witness":
@@ -198,8 +200,16 @@ func finish(eng *Engine, ev *Evidence, prop, tier string, seed int, results []*H
 					validated++
 				}
 			}
+			rkey := p.h.Name + "|" + p.v.ID + "|" + strings.Join(p.v.Known, ",")
+			if ok && reported[rkey] {
+				os.Remove(p.path)
+				continue
+			}
+			if ok {
+				reported[rkey] = true
+			}
 			if !ok {
-				inconclusive = append(inconclusive, fmt.Sprintf("engine-mismatch: counterexample for %s/%s did not reproduce natively (%s): %s", p.h.Name, p.v.ID, p.path, describeNative(native[p.path], nativeOut[p.path])))
+				mismatch[rkey] = append(mismatch[rkey], fmt.Sprintf("engine-mismatch: counterexample for %s/%s did not reproduce natively (%s): %s", p.h.Name, p.v.ID, p.path, describeNative(native[p.path], nativeOut[p.path])))
 				continue
 			}
 			if p.kind == "known" {
@@ -212,6 +222,12 @@ func finish(eng *Engine, ev *Evidence, prop, tier string, seed int, results []*H
 			lines = append(lines, fmt.Sprintf("VIOLATION property=%s replay=%s", prop, p.path))
 			lines = append(lines, fmt.Sprintf("  harness=%s assertion=%s: %s", p.h.Name, p.v.ID, p.v.Msg))
 			samples = append(samples, map[string]interface{}{"harness": p.h.Name, "kind": "counterexample", "assertion": p.v.ID, "message": p.v.Msg, "inputs": fmtInputs(p.v.Inputs), "replay": p.path})
+		}
+	}
+	// a counterexample class is a mismatch only when none of its instances reproduced
+	for k, ms := range mismatch {
+		if !reported[k] {
+			inconclusive = append(inconclusive, ms[0])
 		}
 	}
 	var knownLines []string
